@@ -42,6 +42,9 @@ pub enum Pair {
     Context,
     /// promise j differs (both valid)
     Promise { j: usize },
+    /// promise j is replaced by this (valid) promise in the second run; used for boundary pairs such
+    /// as absent vs u64::MAX at 64 bits
+    PromiseTo { j: usize, to: Option<u64> },
     /// opening j has different blindings, hence a different commitment
     Commitment { j: usize },
     /// the statement is proved at a different bit length
@@ -170,6 +173,18 @@ fn sides(sc: &Scenario) -> Option<(Side, Side)> {
             let cur = w.promises[jj].unwrap_or(0);
             let new = if cur > 0 { cur - 1 } else if w.values[jj] > 0 { 1 } else { return None };
             w2.promises[jj] = Some(new);
+            Some((
+                build_side(cfg, w, &sc.ctx, free_pedersen(cfg.ext), none),
+                build_side(cfg, &w2, &sc.ctx, free_pedersen(cfg.ext), none),
+            ))
+        },
+        Pair::PromiseTo { j, to } => {
+            let jj = *j % cfg.m;
+            if to.unwrap_or(0) > w.values[jj] || to.unwrap_or(0) == w.promises[jj].unwrap_or(0) {
+                return None;
+            }
+            let mut w2 = w.clone();
+            w2.promises[jj] = *to;
             Some((
                 build_side(cfg, w, &sc.ctx, free_pedersen(cfg.ext), none),
                 build_side(cfg, &w2, &sc.ctx, free_pedersen(cfg.ext), none),
@@ -355,7 +370,7 @@ fn execute(sc: &Scenario, st: &mut RunStats) -> Vec<Violation> {
         Pair::BlindingShift { .. } => "blinding_shift_same_commitment",
         Pair::ValueTrade { .. } => "value_trade_same_commitment",
         Pair::Context => "context",
-        Pair::Promise { .. } => "promise",
+        Pair::Promise { .. } | Pair::PromiseTo { .. } => "promise",
         Pair::Commitment { .. } => "commitment",
         Pair::Bits => "bits",
     }));
@@ -544,6 +559,17 @@ impl Check for C14 {
                 Pair::ValueTrade { j }
             },
             3 => Pair::Context,
+            4 if rng.chance(1, 3) => {
+                // boundary pair: the value sits at the top of the range, the promise goes from
+                // absent (or 1) to the value itself; at 64 bits that is u64::MAX
+                if rng.chance(1, 2) && cfg.m * 64 <= 512 {
+                    cfg.bits = 64;
+                }
+                let top: u64 = if cfg.bits == 64 { u64::MAX } else { (1u64 << cfg.bits) - 1 };
+                wit.values[j] = top;
+                wit.promises[j] = if rng.chance(1, 2) || top < 2 { None } else { Some(1) };
+                Pair::PromiseTo { j, to: Some(top) }
+            },
             4 => {
                 if wit.values[j] == 0 && wit.promises[j].unwrap_or(0) == 0 {
                     wit.values[j] = 1.min(max);
